@@ -1,7 +1,7 @@
 # C07: the symbolic machine's state equals sequential execution of the lifted
 # semantics, including overlapping memory.  Refinement check of the real
 # eval_abs / emul_helper against refmodel.RefMachine.  See DESIGN.md 4.3.
-import json, random
+import hashlib, json, random
 from . import core, canon, refmodel
 from .sim_calls import sut, install_budget, reset_budget, Budget
 
@@ -92,6 +92,8 @@ def gen_valuation(rng, nsyms):
     for i in range(nsyms):
         val['s%d' % i] = rng.choice(BOUND32) if rng.random() < 0.4 else rng.getrandbits(32)
     val['_image'] = rng.getrandbits(48)
+    # x87 top of stack: absent from x86_machine(), so it stays a free 64-bit identifier in the state
+    val['float_st0'] = int(hashlib.sha256(('%d|st0' % val['_image']).encode()).hexdigest()[:16], 16)
     return val
 
 def ref_initial(val):
@@ -106,6 +108,7 @@ def ref_initial(val):
     regs['cr0'] = val['init_cr0']
     regs['cs'] = 9
     regs['dr7'] = 0
+    regs['float_st0'] = val.get('float_st0', 0)
     return regs
 
 # ------------------------------------------------------------ real execution
@@ -613,8 +616,12 @@ def gen_move_line(rng):
         if rng.random() < 0.7:
             return 'pop %s' % rng.choice(DATA_REGS32)
         return 'pop %s' % mem_txt(rng, 32, 'ebx')
-    if k < 0.97:
+    if k < 0.96:
         return 'lea %s, [%s%+d]' % (rng.choice(DATA_REGS32), rng.choice(['ebx', 'esp']), rng.randrange(-8, 16))
+    if k < 0.985:
+        # a 64-bit cell (x87 store of the top of stack, an uninterpreted function of float_st0): later accesses may
+        # start up to 7 bytes inside it
+        return 'fst QWORD PTR [%s%+d]' % (base, rng.choice([0, 4, 8, 1, 2, -4, 3]))
     return gen_misc_line(rng)
 
 MISC = ['pushfd', 'popfd', 'bswap eax', 'bswap ecx', 'cdq', 'cwde', 'cbw', 'cwd', 'lahf', 'sahf', 'sete al', 'setb cl', 'setne dh', 'setl dl',
@@ -658,6 +665,11 @@ def gen_string_program(rng, base):
         ins('mov %s [ebx%+d], %d' % (PTR[w], rng.randrange(-4, 28), v))
     kind = rng.random()
     sfx = rng.choice(['b', 'b', 'w', 'd'])
+    if rng.random() < 0.012:
+        # a count at (or just below) the rep loop's documented 0x1000 cap; lods keeps the state small
+        ins('mov ecx, %d' % rng.choice([0x1000, 0x1000, 0xfff]))
+        ins('rep lods' + sfx)
+        return ops
     if kind < 0.45:
         # (rarely a count beyond 256: the loop must run that many single steps, far below its 0x1000 cap)
         ins('mov ecx, %d' % (rng.choice([0x101, 0x120]) if rng.random() < 0.015 else rng.choice([0, 1, 2, 3, 4, 5, 8])))
